@@ -257,3 +257,62 @@ m('M20c', 'C06', 'C06.storage-typestate', 'suspend_point.h',
         _count_flag = 0;""", """        _count_flag = 0;""", 'clear_internal leaks')
 m('M20d', 'C06', 'C06.growth', 'suspend_point.h',
   "            if (count < inline_count)  [[likely]] {", "            if (count + 1 < inline_count)  [[likely]] {", 'inline capacity off by one (allocates at 3)')
+m('M25', 'C09', 'C09.resolve-outside-lock', 'queue.h',
+  """            promise<T> p = std::move(_awaiters.front());
+            _awaiters.pop();
+            lk.unlock();
+            return p(std::forward<Args>(args)...);""", """            promise<T> p = std::move(_awaiters.front());
+            _awaiters.pop();
+            return p(std::forward<Args>(args)...);""", 'push resolves under the lock')
+m('M26', 'C09', 'C09.item-linear-pop', 'queue.h',
+  """                    promise();
+                }
+                _queue.pop();
+                lk.unlock();
+            }
+        };
+    }
+
+    ///unblock awaiting coroutine""", """                    promise();
+                }
+                lk.unlock();
+            }
+        };
+    }
+
+    ///unblock awaiting coroutine""", 'pop forgets to remove the item')
+m('M26b', 'C09', 'C09.item-linear-push', 'queue.h',
+  """        if (!_awaiters.empty()) {
+            promise<T> p = std::move(_awaiters.front());
+            _awaiters.pop();
+            lk.unlock();
+            return p(std::forward<Args>(args)...);
+        } else {
+            _queue.emplace(std::forward<Args>(args)...);
+            return false;""", """        if (!_awaiters.empty()) {
+            promise<T> p = std::move(_awaiters.front());
+            lk.unlock();
+            return p(std::forward<Args>(args)...);
+        } else {
+            _queue.emplace(std::forward<Args>(args)...);
+            return false;""", 'push leaves the served waiter in the queue')
+m('M26c', 'C09', 'C09.never-empty', 'queue.h',
+  """        if (_awaiters.empty()) return false;
+        promise<T> p = std::move(_awaiters.front());
+        _awaiters.pop();
+        lk.unlock();
+        return p.set_exception(e);        """, """        promise<T> p = std::move(_awaiters.front());
+        _awaiters.pop();
+        lk.unlock();
+        return p.set_exception(e);        """, 'unblock_pop without empty test')
+m('M27', 'C10', 'C10.item-linear-pop', 'queue.h',
+  """                    auto p = std::move(front.second);
+                    _blocked.pop();""", """                    auto p = std::move(front.second);""", 'limited pop forgets _blocked.pop')
+m('M27b', 'C10', 'C10.item-linear-push', 'queue.h',
+  "        } else if (this->_queue.size() >= _limit) {", "        } else if (this->_queue.size() > _limit) {", 'limit off by one')
+m('M27c', 'C10', 'C10.item-linear-pop', 'queue.h',
+  """                    lk.unlock();
+                    p();
+                } else {""", """                    p();
+                    lk.unlock();
+                } else {""", 'blocked push completed under the lock')
